@@ -17,6 +17,7 @@ mod c11;
 mod c12;
 mod c13;
 mod c14;
+mod c15;
 
 type ReplayFn = fn(&Ctx, &J) -> Result<(), String>;
 type RunFn = fn(&Ctx);
@@ -37,6 +38,7 @@ fn table(prop: &str) -> Option<(RunFn, ReplayFn)> {
     "C12" => (c12::run, c12::replay),
     "C13" => (c13::run, c13::replay),
     "C14" => (c14::run, c14::replay),
+    "C15" => (c15::run, c15::replay),
     _ => return None,
   })
 }
